@@ -521,7 +521,7 @@ pub fn run(o: &Opts) -> i32 {
         let mut treeqa = QA::create(&dir, "c16-tree");
         {
             let mut hist = Hist {
-                w: new_world(Default::default(), "/tmp/vharness-scratch-c16"),
+                w: new_world(Default::default(), &crate::util::scratch("c16")),
                 rng: Rng::new(hseed),
                 prof: prof.clone(),
                 rep: Report::default(),
@@ -583,6 +583,6 @@ pub fn run(o: &Opts) -> i32 {
     println!("deliveries {deliveries}");
     println!("probes {probes}");
     println!("probe_cover {}", probe_cover.iter().cloned().collect::<Vec<_>>().join(";"));
-    let _ = std::fs::remove_dir_all("/tmp/vharness-scratch-c16");
+    let _ = std::fs::remove_dir_all(&crate::util::scratch("c16"));
     0
 }
